@@ -115,6 +115,12 @@ func runCase(regs []int, universe []route, reqs []request, names []string) rec {
 	mux := build(0, nil)
 	for k, ui := range regs {
 		u := universe[ui-1]
+		if k > 0 { // a request between two registrations: the pool now holds a Store created before the later routes existed
+			func() {
+				defer func() { recover() }()
+				mux.ServeHTTP(httptest.NewRecorder(), &http.Request{Method: "GET", URL: &url.URL{Path: "/a"}, Header: http.Header{}})
+			}()
+		}
 		ok := tryHandle(mux, vio.Bytes(u.Pat), u.Method, p.handler(k+1, vio.Bytes(u.Pat), u.Method))
 		r.Acc = append(r.Acc, ok)
 		if !ok { // a failed registration may leave debris in the trie: continue on a clean Mux
